@@ -496,6 +496,7 @@ type LoopSpec struct {
 	Func       string
 	Ordinal    int
 	Invariants []*Clause
+	Uses       []*Expr
 }
 
 type SpecParam struct {
@@ -520,6 +521,7 @@ type Lemma struct {
 	Ensures  []*Clause
 	Props    []string
 	Pkg      string
+	Uses     []*Expr
 }
 
 type Specs struct {
@@ -677,12 +679,28 @@ func (sp *Specs) loadSpecFile(path, pkg string, trustedFile bool) error {
 		case "nosafety":
 			cur.NoSafety = true
 		case "use":
+			var guard *Expr
+			if gi := strings.Index(rest, " when "); gi >= 0 {
+				g, err := parseExpr(strings.TrimSpace(rest[gi+6:]))
+				if err != nil {
+					return fail(err)
+				}
+				guard = g
+				rest = strings.TrimSpace(rest[:gi])
+			}
 			e, err := parseExpr(rest)
 			if err != nil {
 				return fail(err)
 			}
+			if guard != nil {
+				e = &Expr{Op: "guarded", Args: []*Expr{guard, e}}
+			}
 			if cur != nil {
 				cur.Uses = append(cur.Uses, e)
+			} else if curLemma != nil {
+				curLemma.Uses = append(curLemma.Uses, e)
+			} else if curLoop != nil {
+				curLoop.Uses = append(curLoop.Uses, e)
 			}
 		case "end":
 			cur, curLoop, curLemma = nil, nil, nil
